@@ -342,8 +342,17 @@ func c20Worker(w *core.WorkerCtx) {
 			kl := 16 + 16*rng.Intn(2)
 			k2 := make([]byte, kl)
 			rng.Read(k2)
-			if i == 0 && keyLen == 32 {
+			switch {
+			case i == 0 && keyLen == 32:
 				k2 = append([]byte{}, key[:16]...) // prefix of the right key
+			case i == 1 && keyLen == 16:
+				k2 = append(append([]byte{}, key...), make([]byte, 16)...) // the right key extended by zero bytes
+			case i == 2 && keyLen == 16:
+				k2 = append(append([]byte{}, key...), key...) // the right key twice
+			case i == 3 && keyLen == 32:
+				k2 = append(append([]byte{}, key[:16]...), make([]byte, 16)...) // first half of the right key, zero tail
+			case i == 4 && keyLen == 32:
+				k2 = append(make([]byte, 16), key[16:]...) // zero head, second half of the right key
 			}
 			if bytes.Equal(k2, key) {
 				continue
